@@ -123,7 +123,7 @@ func (g *Gen) enterLoop(li *loopInfo, ins []inEdge, fwdPreds []*ssa.BasicBlock) 
 			// again at every back edge, see closeLoop)
 			conds := []string{sx("<", sx("root", "r"), "brk0")}
 			for _, t := range allowed[c] {
-				conds = append(conds, sx("distinct", "r", t.Ref))
+				conds = append(conds, t.outside("r"))
 			}
 			g.assert(fmt.Sprintf("(forall ((r Int)) (! (=> %s (= (select %s r) (select %s r))) :pattern ((select %s r))))",
 				and(conds...), n, g.heapTerm(pre, c), n))
@@ -269,7 +269,7 @@ func (g *Gen) closeLoop(li *loopInfo, q *ssa.BasicBlock, si int) error {
 			fr := g.freshConst("fr", "Int")
 			conds := []string{sx("<", sx("root", fr), "brk0")}
 			for _, t := range allowed[comp] {
-				conds = append(conds, sx("distinct", fr, t.Ref))
+				conds = append(conds, t.outside(fr))
 			}
 			lfAll = append(lfAll, imp(and(conds...), eq(sel(hq, fr), sel(hp, fr))))
 			lfNames = append(lfNames, comp)
